@@ -3676,8 +3676,8 @@ handle_response(coap_context_t *context, coap_session_t *session,
       }
       session->last_con_mid = rcvd->mid;
     } else if (rcvd->type == COAP_MESSAGE_ACK) {
-      if (rcvd->mid == session->last_ack_mid) {
-        /* Duplicate response */
+      if (rcvd->mid == session->last_ack_mid && !sent) {
+        /* Duplicate response (the request it answers is no longer queued) */
         return;
       }
       session->last_ack_mid = rcvd->mid;
